@@ -107,9 +107,9 @@ def check(ctx):
     aliases = declared_aliases(repo)
     ctx.count("io aliases", len(aliases), 5)
     io = repo.modules["dataiter.io"]
-    public = [f for f in io.functions.values() if not f.name.startswith("_")]
+    public = [f for f in io.functions.values() if f.name.startswith("read_")]
     undeclared = [f.name for f in public if f not in [a for a, _ in aliases]]
-    ctx.ob("FWD-alias", "dataiter.io", "every public io function is a declared alias", "dataiter/io.py:1", not undeclared,
+    ctx.ob("FWD-alias", "dataiter.io", "every read_* function of io.py is a declared alias", "dataiter/io.py:1", not undeclared,
            "all public functions of io.py are declared aliases" if not undeclared else
            f"public io functions without alias declaration: {undeclared}", nontrivial=False)
     for af, tf in aliases:
